@@ -60,6 +60,12 @@ impl<T: Scalar> Outcome<T> {
         g.pow = Some(PowEnc::Opaque);
         self.witnesses.push(g);
     }
+    /// twin whose refutation only has to produce a point (pow nodes opaque; the point is replayed natively)
+    pub fn twin_opaque(&mut self, name: impl Into<String>, l: T, rel: Rel, r: T) {
+        let mut g = goal(name, l, rel, r);
+        g.pow = Some(PowEnc::Opaque);
+        self.twins.push(g);
+    }
     pub fn twin_cuts(&mut self, name: impl Into<String>, l: T, rel: Rel, r: T, prefixes: &[&str]) {
         let mut g = goal(name, l, rel, r);
         g.only_cuts = Some(prefixes.iter().map(|s| s.to_string()).collect());
@@ -141,6 +147,10 @@ pub trait Harness: Sync {
     /// pow encoding for cut justifications and definedness side conditions (Opaque: only y > 0 is known)
     fn pow_for_side_conditions(&self) -> PowEnc {
         PowEnc::Opaque
+    }
+    /// rng-tag mode: from_f64(k*2^-53), 1 <= k <= rng_tags, becomes the variable x{k-1}
+    fn rng_tags(&self) -> usize {
+        0
     }
     /// number of validation points
     fn n_validate(&self) -> usize {
@@ -445,7 +455,7 @@ pub fn check_harness<H: Harness>(h: &H, cfg: &RunCfg) -> PartResult {
         }
     }
     let fp = h.mode() == Mode::Fp;
-    let ecfg = ExploreCfg { mode: h.mode(), max_paths: h.max_paths(), ..Default::default() };
+    let ecfg = ExploreCfg { mode: h.mode(), max_paths: h.max_paths(), rng_tags: h.rng_tags(), ..Default::default() };
     let (paths, complete) = explore(ecfg, || {
         let mut o = Outcome::new();
         // the outcome must survive a panic: keep it in the cell while running
@@ -466,6 +476,8 @@ pub fn check_harness<H: Harness>(h: &H, cfg: &RunCfg) -> PartResult {
     let mut all_vars: BTreeSet<String> = BTreeSet::new();
     let mut path_groups: HashMap<usize, usize> = HashMap::new();
     let const_goals: RefCell<Vec<ConstGoal>> = RefCell::new(vec![]);
+    // observations on the term DAG of a path (path index, description, decisions): violations if the path is feasible
+    let mut structural: Vec<(usize, String, Vec<bool>)> = vec![];
     // witness relations whose two sides are the same term on a path (cannot be refuted there)
     let witness_same: RefCell<Vec<(usize, String)>> = RefCell::new(vec![]);
 
@@ -485,14 +497,14 @@ pub fn check_harness<H: Harness>(h: &H, cfg: &RunCfg) -> PartResult {
             }
         }
         for s in &o.structural {
-            res.violations.push(Violation { goal: "structural".into(), site: h.name(), witness_class: "structural".into(), desc: s.clone(), replay: json!({}) });
+            structural.push((pi, s.clone(), p.taken.iter().map(|t| t.1).collect()));
         }
         for n in &o.notes {
             if !res.notes.contains(n) {
                 res.notes.push(n.clone());
             }
         }
-        if o.goals.is_empty() && o.twins.is_empty() && o.witnesses.is_empty() && panic.is_none() && o.cuts.is_empty() {
+        if o.goals.is_empty() && o.twins.is_empty() && o.witnesses.is_empty() && panic.is_none() && o.cuts.is_empty() && o.structural.is_empty() {
             // nothing is claimed on this path (e.g. an error return that another property covers)
             res.paths_without_goals += 1;
             continue;
@@ -925,6 +937,32 @@ pub fn check_harness<H: Harness>(h: &H, cfg: &RunCfg) -> PartResult {
             }
         }
     }
+    {
+        let mut seen: BTreeSet<String> = BTreeSet::new();
+        for (p, desc, decisions) in &structural {
+            if feasible.get(p) == Some(&false) || !seen.insert(desc.clone()) {
+                continue;
+            }
+            // re-observe on the real code: run the same path again and look for the same observation
+            let again = run_once(ExploreCfg { mode: h.mode(), rng_tags: h.rng_tags(), ..Default::default() }, decisions, &|| {
+                let mut o = Outcome::<Sym>::new();
+                let _ = std::panic::catch_unwind(std::panic::AssertUnwindSafe(|| h.run::<Sym>(&mut o)));
+                o.structural
+            });
+            let reproduced = again.result.map(|v| v.contains(desc)).unwrap_or(false);
+            if reproduced {
+                res.violations.push(Violation {
+                    goal: "structural".into(),
+                    site: h.name(),
+                    witness_class: "structural".into(),
+                    desc: desc.clone(),
+                    replay: json!({"harness": h.name(), "goal": "structural", "decisions": decisions, "path_feasible": format!("{:?}", feasible.get(p)), "model": path_models.get(p)}),
+                });
+            } else {
+                res.hard_failures.push(format!("{} path{}: observation '{}' did not reproduce", h.name(), p, desc));
+            }
+        }
+    }
     for cg in const_goals.borrow().iter() {
         if feasible.get(&cg.path) == Some(&false) {
             continue;
@@ -1163,7 +1201,7 @@ pub fn validate_at<H: Harness>(h: &H, model: &BTreeMap<String, f64>) -> Result<u
     let m2: HashMap<String, f64> = full.iter().map(|(k, v)| (k.clone(), *v)).collect();
     // guided run: decisions taken by evaluating atoms numerically
     let mut prefix: Vec<bool> = vec![];
-    let cfgx = ExploreCfg { mode: h.mode(), ..Default::default() };
+    let cfgx = ExploreCfg { mode: h.mode(), rng_tags: h.rng_tags(), ..Default::default() };
     let mut guard = 0;
     loop {
         guard += 1;
